@@ -81,6 +81,7 @@ class Evaluator:
         self.top_body = None
         self.fallthrough_pc = ()
         self.newtypes = self._numeric_newtypes()
+        T.register_enums(crate.adts)
         self.unknown = []        # constructs evaluated as opaque
 
     # ---------------------------------------------------------------- type helpers
